@@ -47,7 +47,7 @@ def run(prog, job: dict) -> dict:
         k = K.Kit(it)
         rec: dict[str, Any] = {}
         try:
-            opts = P.make_options(k, logical=job.get("logical"), delimited=job.get("delimited", True), frame_size=job.get("frame_size", 250), preset=job.get("preset", (8, 8, 8)), namespaces=job.get("namespaces_enabled", bool(job.get("namespaces"))), generalized=job.get("generalized", True), rdf_star=job.get("rdf_star", True))
+            opts = P.make_options(k, logical=job.get("logical"), delimited=job.get("delimited", True), frame_size=job.get("frame_size", 250), preset=job.get("preset", (8, 8, 8)), namespaces=job.get("namespaces_enabled", bool(job.get("namespaces"))), generalized=job.get("generalized", True), rdf_star=job.get("rdf_star", True), version=job.get("version"))
             writer = P.write_generic if integ == "generic" else P.write_rdflib
             frames, stream = writer(k, physical, stmts, opts, via=job.get("via", "sink" if integ == "generic" else "store"), namespaces=job.get("namespaces"))
         except PyRaise as pr:
